@@ -149,11 +149,33 @@ def main : IO Unit := do
 """
 
 
+_STALE = {}
+
+
+def still_open(ctx, k) -> bool:
+    """An open known finding whose recorded witness no longer fails on the real code is stale (the defect was repaired): its
+    exclusions are dropped for this run — the theorems must then hold without them — and a note says so.  The file is never
+    written at run time."""
+    if k.get("status") != "open":
+        return False
+    w = k.get("witness")
+    if not w or not k.get("excluded_annotation"):
+        return True
+    key = k.get("key", "")
+    if key not in _STALE:
+        p = common.run_py(common.VERIF / "tools/search/convcheck.py", [k.get("property", "C01"), "--one", w["root"], json.dumps(w["input"])], check=False)
+        fails = p.returncode != 0 or bool(json.loads(p.stdout or "{}").get("mismatches"))
+        _STALE[key] = not fails
+        if not fails:
+            ctx.notes.append(f"open known finding {key} no longer reproduces on the real code (stale entry): its exclusion is NOT applied in this run")
+    return not _STALE[key]
+
+
 def excluded_responses(ctx):
     """response classes outside the link theorem because their `result` annotation is excluded for an open known finding (method names)"""
     out = []
     for k in ctx.known:
-        if k.get("status") == "open":
+        if still_open(ctx, k):
             for m in k.get("excluded_response_methods", []):
                 if m not in out:
                     out.append(m)
@@ -164,7 +186,7 @@ def excluded_annotations(ctx):
     """annotations excluded from T1/T2 because of an open known finding (Lean terms)"""
     out = []
     for k in ctx.known:
-        if k.get("status") == "open" and k.get("excluded_annotation") and k["excluded_annotation"] not in out:
+        if still_open(ctx, k) and k.get("excluded_annotation") and k["excluded_annotation"] not in out:
             out.append(k["excluded_annotation"])
     return out
 
